@@ -25,7 +25,7 @@ for p in sorted(glob.glob(os.path.join(ROOT, "props", "C*.py"))):
     outdir = os.path.join(ROOT, "out", pid)
     os.makedirs(outdir, exist_ok=True)
     ov = chk.write_overlay(P, outdir)
-    rc, out, dt = chk.sh(["go", "test", "-tags", "verif", "-overlay", ov, "-count=1", "-vet=off", "-run", "^$", P.GO_PKG],
+    rc, out, dt = chk.sh(["go", "test", chk.modfile_arg(outdir), "-tags", "verif", "-overlay", ov, "-count=1", "-vet=off", "-run", "^$", P.GO_PKG],
                          cwd=chk.REPO, timeout=1800, env=chk.go_env())
     print("warm", pid, P.GO_PKG, "rc=%d %.0fs" % (rc, dt))
     if rc != 0:
